@@ -46,8 +46,12 @@ func expectReject(cs *caseT) string {
 			if n, ok := descLen(cs.Desc); ok && n > 65536 {
 				return "a block part larger than BlockPartSizeBytes (65536)"
 			}
+		// (only arrays whose words match their bit count: since ad4f98a FromProto takes an array whose bits and
+		// words disagree as EMPTY, which VoteSetBits legitimately accepts and NewValidBlock rejects as empty)
 		case cs.Msg == "VoteSetBits" && cs.Field == "vote_set_bits.votes" && strings.HasPrefix(cs.Desc, "bits="):
-			if b, ok := descUint(cs.Desc, "bits="); ok && b > 10000 {
+			b, ok := descUint(cs.Desc, "bits=")
+			el, ok2 := descUint(cs.Desc, "elems=")
+			if ok && ok2 && b > 10000 && b < 1<<62 && (b+63)/64 == el {
 				return "a vote bit array larger than MaxVotesCount (10000)"
 			}
 		case cs.Msg == "NewValidBlock" && cs.Field == "new_valid_block.block_parts" && strings.HasPrefix(cs.Desc, "bits="):
